@@ -27,10 +27,15 @@ oracle, every argument list and every format:
   byte for byte and side for side, as what it held followed by what `Sprint`/`Sprintf` returns —
   agreement up to merging of adjacent envelopes, as equality of the labelled reading (C09).
 
-The same agreement for an outer printer that already holds text (nested-printer route),
-and the SafeFormat route (which runs the same
-`doPrint` with less fuel), rest on the correspondence (B streams with `pr`
-operations, P-model scripts with nested prints) and the real-code route oracle.
+* the SafeFormat route (`safeformat_print_route`, `safeformat_route_same_output`): `Sprint(v)` for a
+  `v` whose `SafeFormat` calls `w.Print(args...)` runs, inside the nested printer, the very
+  `doPrintLoop` that `Sprint(args...)` runs, on the same printer state, and hands its result back
+  unchanged: the same bytes. In the model the inner run has seven units less fuel (fuel is a proof
+  device; that results do not depend on it beyond being enough is not proved).
+
+The same agreement for an outer printer that already holds text (nested-printer route) rests on
+the correspondence (B streams with `pr` operations, P-model scripts with nested prints) and the
+real-code route oracle.
 -/
 namespace Redact
 
@@ -121,5 +126,67 @@ theorem builder_route_lab (ws : List WOp) (r : List Byte) (hw : ∀ w ∈ ws, Cl
     · exact hr
   rw [builder_lab_partial _ h2, builder_lab_partial _ hw]
   simp [List.flatMap_append, labW, pendLab]
+
+/-- The printer after `doPrint`'s prologue on a fresh printer. -/
+def p1 : PP := { newPP with buf := newPP.buf.setMode .safeEsc }
+
+theorem p1_np : ({ buf := p1.buf, override := p1.override } : PP) = p1 := rfl
+theorem p1_setSafe : p1.buf.setMode .safeEsc = p1.buf := setMode_same _ _ (setMode_mode _ _)
+
+/-- **SafeFormat route.** `Sprint(v)` where `v.SafeFormat(w, _)` does `w.Print(args...)`: the value is
+dispatched to its SafeFormat method, whose nested printer runs the very `doPrintLoop` that
+`Sprint(args...)` runs, on the same printer state, with seven units less fuel; its result is handed
+back with the mode restored. (Fuel is a proof device: Go has no such bound.) -/
+theorem safeformat_print_route (env : Env) (n : Nat) (ms : Methods) (ty : List Byte) (ret : Nat) (under : Val) (args : Vals)
+    (hsf : ms.safeFormatter = true) (np' : PP)
+    (h : doPrintLoop env n p1 args.toList 0 false = .ok np') :
+    doPrint env (n + 1) newPP args.toList = .ok np' ∧
+    doPrint env (n + 8) newPP [.meth ms ty false false false ret (.print args .done) under] =
+      .ok { p1 with buf := np'.buf.setMode .safeEsc } := by
+  have hov : newPP.override ≠ .ovUnsafe := by decide
+  constructor
+  · rw [doPrint]; simp only [hov, if_true, ne_eq, not_false_eq_true]; exact h
+  · rw [doPrint]
+    simp only [hov, if_true, ne_eq, not_false_eq_true]
+    change doPrintLoop env (n + 7) p1 _ 0 false = _
+    rw [doPrintLoop]
+    simp only [gt_iff_lt, Nat.lt_irrefl, false_and, if_false]
+    rw [printArg]
+    simp only [isRegistered, isSafeValue, Bool.false_eq_true, if_false]
+    rw [printArgBody]
+    simp only [show ¬ (118 = 84) by decide, show ¬ (118 = 112) by decide, if_false]
+    rw [handleMethods]
+    have he : p1.erroring = false := rfl
+    simp only [he, Bool.false_eq_true, if_false, show ¬ (118 = 119) by decide]
+    rw [methDispatch]
+    have ho1 : p1.override ≠ .ovUnsafe := by decide
+    simp only [ho1, hsf, ne_eq, not_false_eq_true, and_self, if_true, Bool.false_eq_true, if_false]
+    rw [runScript]
+    simp only [p1_np]
+    rw [doPrint]
+    simp only [ho1, if_true, ne_eq, not_false_eq_true, p1_setSafe]
+    have e : ({ p1 with buf := p1.buf } : PP) = p1 := rfl
+    rw [e, h]
+    simp only
+    rw [runScript, catchPanic]
+    simp only [Res.bind]
+    rw [doPrintLoop]
+    have hm : p1.buf.mode = .safeEsc := setMode_mode _ _
+    simp [hm]
+    all_goals first | rfl | (intros; simp_all)
+
+/-- Hence the two routes print the same bytes whenever the inner loop returns. -/
+theorem safeformat_route_same_output (env : Env) (he : EnvOk env) (n : Nat) (ms : Methods) (ty : List Byte) (ret : Nat)
+    (under : Val) (args : Vals) (ha : ValsOk args) (hsf : ms.safeFormatter = true) (np' : PP)
+    (h : doPrintLoop env n p1 args.toList 0 false = .ok np') :
+    (doPrint env (n + 8) newPP [.meth ms ty false false false ret (.print args .done) under]).output =
+      (doPrint env (n + 1) newPP args.toList).output := by
+  have ⟨h1, h2⟩ := safeformat_print_route env n ms ty ret under args hsf np' h
+  have hp1 : Pre p1 := ⟨inv_setMode newPP.buf .safeEsc inv_init, by simp [p1, setMode_mode]⟩
+  have g := ((spec_all env he n).doPrintLoop p1 args.toList 0 false hp1 (listOk_of_valsOk _ ha)).1 np' h
+  have hm : np'.buf.mode = .safeEsc := by rw [g.2.1]; exact setMode_mode _ _
+  rw [h1, h2]
+  simp only [Res.output]
+  rw [setMode_same _ _ hm]
 
 end Redact
